@@ -5,7 +5,7 @@
 From Coq Require Import ZifyBool ZifyNat ZifyN.
 From RN Require Import Base.Res Base.AMap Base.AMapProofs Naming.Service Naming.ServiceProofs
   Naming.Timeout Naming.TimeoutProofs Naming.Filter Naming.Actor Naming.IndexProofs Naming.ActorProofs
-  Naming.OwnershipProofs Naming.ExpiryProofs Naming.Script Naming.ScriptProofs.
+  Naming.BudgetProofs Naming.OwnershipProofs Naming.ExpiryProofs Naming.Script Naming.ScriptProofs.
 Local Open Scope N_scope.
 Ltac Zify.zify_post_hook ::= Z.div_mod_to_equations.
 
@@ -287,6 +287,9 @@ Proof.
   - destruct (get_service_info_page a ns). exact A.
   - exact A.
   - exact A.
+  - eapply armed_all_map with (f := fun k s => if kvis k (BudgetProofs.visited c n order a) then fst (fst (tc_svc c (a_now a) s)) else s);
+      [exact A | | reflexivity].
+    intros k s _ As. destruct (kvis _ _); auto. apply armed_time_check; auto.
 Qed.
 
 (** histories in which every cluster-synced update satisfies [sync_ok] in the state it meets *)
